@@ -229,11 +229,11 @@ impl Alphabet {
             entry_ref: vec![],
             extend: vec![],
             from_iter: false,
-            clear: false,
+            clear: true,
             reserve: vec![],
             shrink_to_fit: false,
             shrink_to: vec![],
-            retain: vec![],
+            retain: vec![Ret::None, Ret::EvenIds],
             clone: false,
             raw_entry: false,
             rustc_entry: false,
